@@ -542,6 +542,81 @@ func (sol *Solution[S]) After(n ast.Node) (S, bool) {
 	return st, true
 }
 
+// EndOfBody returns the state where control falls off the end of a loop body (and goes on to the post statement /
+// condition); ok=false when the end of the body cannot be reached.
+func (sol *Solution[S]) EndOfBody(body *ast.BlockStmt) (S, bool) {
+	var zero S
+	if body == nil || len(body.List) == 0 {
+		return zero, false
+	}
+	last := body.List[len(body.List)-1]
+	if lb, ok := last.(*ast.LabeledStmt); ok {
+		last = lb.Stmt
+	}
+	var done *cfg.Block
+	switch x := last.(type) {
+	case *ast.ReturnStmt, *ast.BranchStmt:
+		return zero, false
+	case *ast.IfStmt:
+		done = sol.blockFor(cfg.KindIfDone, last)
+	case *ast.ForStmt:
+		done = sol.blockFor(cfg.KindForDone, last)
+	case *ast.RangeStmt:
+		done = sol.blockFor(cfg.KindRangeDone, last)
+	case *ast.SwitchStmt, *ast.TypeSwitchStmt:
+		done = sol.blockFor(cfg.KindSwitchDone, last)
+	case *ast.SelectStmt:
+		done = sol.blockFor(cfg.KindSelectDone, last)
+	case *ast.BlockStmt:
+		return sol.EndOfBody(x)
+	default:
+		return sol.After(last)
+	}
+	if done == nil || !sol.has[done] {
+		return zero, false
+	}
+	return sol.in[done], true
+}
+
+// backEdge is one way a loop body hands control back to the loop head.
+type backEdge[S any] struct {
+	Node  ast.Node // the continue statement, or the last statement of the body
+	State S
+}
+
+// BackEdges: the states at the `continue` statements of the loop fs positioned after pos and at the end of its body.
+func BackEdges[S any](p *Program, sol *Solution[S], fs *ast.ForStmt, pos token.Pos) []backEdge[S] {
+	var out []backEdge[S]
+	ast.Inspect(fs.Body, func(x ast.Node) bool {
+		if _, isLit := x.(*ast.FuncLit); isLit {
+			return false
+		}
+		br, ok := x.(*ast.BranchStmt)
+		if !ok || br.Tok != token.CONTINUE || br.Pos() < pos {
+			return true
+		}
+		// a continue of an inner loop is not a back edge of fs
+		inner := p.enclosing(br, fs, func(n ast.Node) bool {
+			switch n.(type) {
+			case *ast.ForStmt, *ast.RangeStmt:
+				return true
+			}
+			return false
+		})
+		if br.Label == nil && inner != nil && inner != ast.Node(fs) {
+			return true
+		}
+		if st, ok := sol.Before(br); ok {
+			out = append(out, backEdge[S]{br, st})
+		}
+		return true
+	})
+	if st, ok := sol.EndOfBody(fs.Body); ok && len(fs.Body.List) > 0 {
+		out = append(out, backEdge[S]{fs.Body.List[len(fs.Body.List)-1], st})
+	}
+	return out
+}
+
 // AtExit returns the out-state of an exit block.
 func (sol *Solution[S]) AtExit(e Exit) (S, bool) {
 	var zero S
